@@ -84,8 +84,11 @@ def conclude(pid, P, tier, seed, results, wall):
             elif st == 'failed':
                 if o.get('confirmed'):
                     violations.append((unit, o, True))
-                elif (o.get('okind') in PROPERTY_KINDS) and (name in baseline) and \
-                        not o.get('no_model_violation_forbidden'):
+                elif (o.get('okind') in PROPERTY_KINDS) and not o.get('no_model_violation_forbidden') \
+                        and (name in baseline or (name.endswith('.unexpected') and any(
+                            b.startswith(name.split('.raises[')[0] + '.') for b in baseline))):
+                    # (an exception no path could raise on the unchanged tree has no baseline entry
+                    # of its own; the function's other obligations being in the baseline is enough)
                     violations.append((unit, o, False))
                 else:
                     undecided.append((unit, name, 'obligation failed (solver: sat) but no failing '
